@@ -338,3 +338,85 @@ def r7(ctx, R):
     pc = ast.parse("def __init__(self, params):\n    c = params.pop('collocation_class', None)\n").body[0]
     if not any(isinstance(x, ast.Call) and isinstance(x.func, ast.Attribute) and x.func.attr == 'pop' for x in ast.walk(pc)):
         raise AnalysisError('C20.R7 positive control broken')
+
+
+EXACT_TESTS = [
+    (STEP, 'Step._Step__generate_hierarchy', 'ParameterError', ["'dtype_u' in descr", "'dtype_f' in descr", 'key not in descr', "len(descr_list) > 1 and (not descr_new['space_transfer_class'])"]),
+    ('pySDC/core/sweeper.py', 'Sweeper.__init__', 'ParameterError', ['key not in params']),
+    (ct.NONMPI[0], 'controller_nonMPI.__init__', 'ControllerError', ["'predict' in controller_params", 'not L.sweep.coll.right_is_node', 'not all((len(S.levels) == len(self.MS[0].levels) for S in self.MS))', 'self.nlevels == 0', 'self.nlevels > 1 and self.nsweeps[-1] > 1']),
+    ('pySDC/core/collocation.py', 'CollBase.__init__', 'CollocationError', ['not num_nodes > 0', 'not tleft < tright']),
+    (CTRL, 'ParaDiagController.__init__', 'ParameterError', ["'alpha' not in controller_params.keys()"]),
+]
+
+
+@rule('C20', 'C20.R8', 'rejection guards are not narrowed: the condition directly in front of each tabled raise is exactly the tabled one (an extra conjunct would let an invalid setup through)', floor=13)
+def r8(ctx, R):
+    from ..norm import nnf
+    repo = ctx.repo
+
+    def canon(n):
+        return ast.unparse(n)
+
+    def atoms(nf):
+        if isinstance(nf, tuple) and nf[0] == 'and':
+            out = set()
+            for k in nf[1]:
+                out |= atoms(k)
+            return out
+        return {nf}
+
+    for rel, name, err, tests in EXACT_TESTS:
+        cn, meth = name.split('.', 1)
+        ci = repo.cls(rel, cn)
+        fn = ci.methods.get(meth) or ci.methods.get(meth.replace(f'_{cn}', ''))
+        if fn is None:
+            raise AnalysisError(f'{rel}:{name} vanished')
+        w = f'{rel}:{cn}.{fn.name}'
+        R.fn(w)
+        cfg = FuncCFG(fn)
+        inner = []
+        for n, s in cfg.stmt_of.items():
+            if isinstance(s, ast.Raise) and s.exc is not None and err in ast.unparse(s.exc):
+                g = cfg.guards[id(s)]
+                if g:
+                    t, pol = g[-1]
+                    inner.append(nnf(t, canon) if pol else nnf(ast.UnaryOp(ast.Not(), t), canon))
+        for tst in tests:
+            want = nnf(ast.parse(tst, mode='eval').body, canon)
+            if want in inner:
+                R.ok(f'{cn}.{fn.name} :: raise {err} directly under `{tst}`', w, found='exact')
+                continue
+            narrowed = [str(i) for i in inner if atoms(want) < atoms(i)]
+            R.bad(f'{cn}.{fn.name} :: raise {err} directly under `{tst}`', w, f'the test is exactly {tst}', {'narrowed to': narrowed} if narrowed else {'tests found in front of the raises': [str(i)[:80] for i in inner]})
+
+
+REGISTRIES = ('QDELTA_GENERATORS', 'QDELTA_GENERATORS_ALIASES', 'Q_GENERATORS', 'RK_SCHEMES')
+_CONTROL_GET = "gen = QDELTA_GENERATORS.get(qd_type, type(cached))"
+
+
+def _lenient_lookups(tree):
+    return [ast.unparse(c) for c in ast.walk(tree) if isinstance(c, ast.Call) and isinstance(c.func, ast.Attribute) and c.func.attr in ('get', 'setdefault') and ast.unparse(c.func.value).split('.')[-1] in REGISTRIES and len(c.args) >= 2]
+
+
+@rule('C20', 'C20.R9', 'names of preconditioners / schemes are looked up strictly: no registry lookup with a fallback value, the generator cache is reused only for a known alias of the cached generator (an unknown name must reach the raising lookup)', floor=4)
+def r9(ctx, R):
+    repo = ctx.repo
+    R.check(_lenient_lookups(ast.parse(_CONTROL_GET)) == ['QDELTA_GENERATORS.get(qd_type, type(cached))'], 'positive control :: a registry lookup with a default is recognised in the embedded example', 'sa/rules/c20.py:_CONTROL_GET', 'one lenient lookup', _lenient_lookups(ast.parse(_CONTROL_GET)))
+    found = []
+    for m in repo.modules.values():
+        if repo.is_library(m):
+            found += [f'{m.relpath}: {x}' for x in _lenient_lookups(m.tree)]
+    R.check(not found, 'library :: no .get(name, default) on a registry of preconditioners / quadrature generators / RK schemes', 'pySDC (library modules)', 'strict lookups REGISTRY[name] only', found)
+    rel = 'pySDC/core/sweeper.py'
+    fn = repo.func(rel, 'Sweeper.buildGenerator')
+    rets = [ast.unparse(s.value) for s in ast.walk(fn) if isinstance(s, ast.Return)]
+    R.fn(f'{rel}:Sweeper.buildGenerator')
+    R.check(len(rets) == 1 and rets[0].startswith('QDELTA_GENERATORS[qdType]('), 'Sweeper.buildGenerator :: the name is resolved by a subscript lookup (KeyError for unknown names)', f'{rel}:Sweeper.buildGenerator', 'QDELTA_GENERATORS[qdType](..)', rets)
+    for meth, attr in (('get_Qdelta_implicit', 'genQI'), ('get_Qdelta_explicit', 'genQE')):
+        fn = repo.func(rel, f'Sweeper.{meth}')
+        w = f'{rel}:Sweeper.{meth}'
+        R.fn(w)
+        ifs = [s for s in walk_no_nested(fn) if isinstance(s, ast.If) and any(isinstance(x, ast.Assign) and ast.unparse(x.targets[0] if not isinstance(x, ast.AnnAssign) else x.target) == f'self.{attr}' for x in ast.walk(s)) or isinstance(s, ast.If) and any(isinstance(x, ast.AnnAssign) and ast.unparse(x.target) == f'self.{attr}' for x in ast.walk(s))]
+        test = ast.unparse(ifs[0].test) if len(ifs) == 1 else None
+        want = f"not hasattr(self, '{attr}') or qd_type not in QDELTA_GENERATORS_ALIASES[type(self.{attr})]"
+        R.check(test == want, f'Sweeper.{meth} :: the cached generator is reused only if the requested name is one of ITS aliases', w, want, test)
